@@ -123,6 +123,9 @@ impl XmlConverter {
                     }
                 }
                 if let Some((prefix, uri)) = ns {
+                    // The writer escapes attribute values but writes
+                    // namespace uris as they are.
+                    let uri = xml::escape::escape_str_attribute(uri);
                     if prefix.is_empty() {
                         start = start.default_ns(uri);
                     } else {
